@@ -10,17 +10,27 @@ specification `Cnl.Spec.Exp2.IsRef E rep r` (`r = ⌊2^x · 2^(−E)⌋`, `x = r
 
 **The property is false of the code** (and of the model):
 * `C20_exp2_refuted` — the documented 1-LSB bound fails: `uint8_t, power<−4>`, rep 63: the code returns 243, `⌊2^3.9375·16⌋ = 245`;
-  finding `C20.exp2_error_exceeds_1lsb` (open);
-* `C20_exp2_unsigned32_refuted` — for `uint32_t` (and `uint64_t`) reps with a negative exponent `floored <= Exponent` compares an unsigned
-  value with a negative `int`, is always true, and `exp2` returns representation 1 for every input; finding `C20.exp2_unsigned_rep_sign_compare` (open);
-* (driver only) positive exponents: `static_cast<Rep>(floor(x))` wraps for very negative `x`; finding `C20.exp2_positive_exponent_floor_wraps` (open).
+  finding `C20.exp2_error_exceeds_1lsb` (open).
+
+**Repaired in /repo** (the as-found definitions are `Cnl.Exp2.exp2Orig` / `exp2WithOrig`, refuted here from the witnesses):
+* `C20_exp2_unsigned32_orig_refuted` — AS FOUND, for `uint32_t` (and `uint64_t`) reps with a negative exponent `floored <= Exponent` compared an
+  unsigned value with a negative `int`, was always true, and `exp2` returned representation 1 for every input; finding
+  `C20.exp2_unsigned_rep_sign_compare` (fixed).  `C20_exp2_unsigned32_repaired`: the witness now gives 524288 = 8·2^16;
+  `C20_early_return_by_value`: the repaired test is `floored ≤ Exponent` by value for every standard `Rep`, and is never taken for an
+  unsigned `Rep` with a negative exponent.
+* `C20_exp2_floor_wraps_orig_refuted` — AS FOUND, positive exponents: `static_cast<Rep>(floor(x))` wrapped / overflowed for negative `x`
+  (`int8_t, power<1>`, rep −123: undefined shift; `int32_t, power<3>`, rep −2^31: signed overflow); finding
+  `C20.exp2_positive_exponent_floor_wraps` (fixed).  `C20_exp2_below_range_exact`: for EVERY width, every positive exponent and every
+  negative input the repaired `exp2` returns 0, which is the true `⌊2^x·2^(−E)⌋`.
 
 **Proved** (kernel-checked over EVERY input, against the true floor):
-* `C20_exp2_8bit_partial` — for each of the 25 8-bit formats listed in `bounds8` (every exponent with an integer bit, except `int8_t` with
-  exponent +1, +2): whenever the true result fits, the model returns a value, and it is within the stated *exact* maximum deviation (0, 1 or 2 units);
+* `C20_exp2_8bit_partial` — for each of the 19 8-bit formats listed in `bounds8` (every exponent with an integer bit, up to +2, signed and
+  unsigned): whenever the true result fits, the model returns a value, and it is within the stated *exact* maximum deviation (0, 1 or 2 units);
   `C20_exp2_8bit_tight` — the bound is attained.
-* `C20_integral_exact_partial` — (a) integral `x` whose `2^x` is representable ⇒ the result is exactly `2^(x−E)`: every 8-, 16- and 32-bit format
-  with an integer bit outside the sign-compare class, every such `x` (finite: at most `digits` inputs per format).
+* `C20_integral_exact` — (a) integral `x` whose `2^x` is representable ⇒ the result is exactly `2^(x−E)`: EVERY 8-, 16- and 32-bit format
+  with an integer bit, signed and unsigned (`InScope`), every representation, stated against the true floor `IsRef`.  It rests on the kernel-checked table
+  `C20_integral_exact_table` (every format with exponent ≤ +5, at most `digits` integral inputs each), on `isFloor_pow` (the floor of `2^(j·2^n/2^n)` is `2^j`) and on
+  `two_pow_ge` (`E + 32 ≤ 2^E` for `E ≥ 6`: beyond exponent +5 no integral input has a representable power in a rep of at most 32 bits).
 * constants: `C20_constants_model`, `C20_constants_algebraic` (√2, √3, 1/√3, φ: exact), `C20_constants_ref60` (all thirteen, against a
   60-digit decimal enclosure — a numerical reference, not a theorem about π or e), `C20_constants_series_unreachable`.
 * constants against the TRUE real numbers (`CnlProofs.NumbersReal`, Mathlib's `Real.pi`, `Real.exp 1`, `Real.log`, `√`,
@@ -34,7 +44,10 @@ specification `Cnl.Spec.Exp2.IsRef E rep r` (`r = ⌊2^x · 2^(−E)⌋`, `x = r
   ln 10 = 3 ln 2 + ln(5/4); reciprocals and square roots by rational interval arithmetic; γ from `eulerMascheroniSeq 16383 < γ <
   eulerMascheroniSeq' 16384`.
 
-**Not proved** (`def … : Prop`, kept at full strength): `C20_exp2_full` (false, see above); `C20_16_full` / `C20_32_full` — the deviation bound for
+**Not proved** (`def … : Prop`, kept at full strength): `C20_exp2_full` (false, see above); `C20_32_full` is false as well
+(`C20_exp2_unsigned32_refuted`: since the sign-compare repair `uint32_t` reps reach the polynomial, and results in the top few percent of the range
+are 2 units low: `uint32_t, power<−16>`, rep 1048150 → 4275659308, true floor 4275659310; finding `C20.exp2_error_exceeds_1lsb_unsigned32`, open);
+`C20_16_full` and the 32-bit bound for signed reps — the deviation bound for
 16- and 32-bit reps: the kernel evaluator needs ≈ 30 ms per input on this model, so 65 536-input tables do not fit the build budget and `2^32` never will;
 both are covered by the correspondence sweep (every input of the listed 16-bit formats; dense for 32-bit) with the *same, proved-sound* oracle run by
 the compiled driver.  `C20_constants_real_full` — γ (egamma) for the formats with more than 14 fractional bits: Mathlib bounds γ only by the two O(1/n) sequences
@@ -79,15 +92,80 @@ theorem C20_exp2_refuted : ¬ C20_exp2_full := by
 theorem witness32_ref : IsRef (-16) 196608 524288 := by
   show IsFloorPow2 (expArg (-16) 196608).1 (expArg (-16) 196608).2 524288
   decide +kernel
-theorem witness32_model : exp2 ⟨32, false, -16⟩ 196608 = .ok 1 := by decide +kernel
 
-/-- `exp2(scaled_integer<uint32_t, power<-16>>{3})` has representation 1 (= 2^−16) instead of 524288 (= 8) -/
-theorem C20_exp2_unsigned32_refuted : ¬ C20_32_full := by
+/-! ### repaired defect 1: `floored <= Exponent` compared an unsigned `Rep` with a negative `int` -/
+
+/-- the 1-LSB claim for one width about the AS-FOUND definition -/
+def C20_width_full_orig (W : Nat) : Prop :=
+  ∀ f : Fmt, InScope f → f.bits = W → ∀ rep, f.rep.InRange rep → ∀ r : Nat, IsRef f.exp rep r → (r : Int) ≤ f.rep.max →
+    ∃ v, exp2Orig f rep = .ok v ∧ (v - r).natAbs ≤ 1
+
+theorem witness32_orig : exp2Orig ⟨32, false, -16⟩ 196608 = .ok 1 := by decide +kernel
+
+/-- AS FOUND: `exp2(scaled_integer<uint32_t, power<-16>>{3})` had representation 1 (= 2^−16) instead of 524288 (= 8) -/
+theorem C20_exp2_unsigned32_orig_refuted : ¬ C20_width_full_orig 32 := by
   intro h
   obtain ⟨v, hv, hd⟩ := h ⟨32, false, -16⟩ ⟨Or.inr (Or.inr rfl), by decide⟩ rfl 196608 (by decide) 524288 witness32_ref (by decide)
-  rw [witness32_model] at hv
+  rw [witness32_orig] at hv
   cases hv
   revert hd; decide
+
+/-- repaired: the witness is exact, and so is the `uint64_t` one (`exp2(3)` at `power<-40>`) -/
+theorem C20_exp2_unsigned32_repaired :
+    exp2 ⟨32, false, -16⟩ 196608 = .ok 524288 ∧ exp2 ⟨64, false, -40⟩ 3298534883328 = .ok 8796093022208 := by
+  decide +kernel
+
+/-- the repaired test `fp::not_above_exponent` is `floored ≤ Exponent` by value for every standard `Rep` (8 … 64 bits, either
+signedness), is never taken for an unsigned `Rep` with a negative exponent, while the as-found built-in comparison held for `3u <= -16` -/
+theorem C20_early_return_by_value :
+    (∀ (f : Fmt) (fl : Int), (f.bits = 8 ∨ f.bits = 16 ∨ f.bits = 32 ∨ f.bits = 64) → f.rep.InRange fl → i32.InRange f.exp →
+      (notAbove f fl = true ↔ fl ≤ f.exp)) ∧
+    (∀ (f : Fmt) (fl : Int), f.signed = false → f.exp < 0 → notAbove f fl = false) ∧
+    cLeF (u32, 3) (i32, -16) = true :=
+  ⟨notAbove_iff, notAbove_unsigned_neg, cLe_orig_not_by_value.1⟩
+
+example : (Fmt.rep ⟨32, false, -16⟩).InRange 3 ∧ i32.InRange (-16) ∧ notAbove ⟨32, false, -16⟩ 3 = false := by decide
+
+/-! ### new since the repair: 32-bit unsigned reps reach the polynomial, and its error exceeds one unit near the top of the range -/
+
+theorem witness32acc_ref : IsRef (-16) 1048150 4275659310 := by
+  show IsFloorPow2 (expArg (-16) 1048150).1 (expArg (-16) 1048150).2 4275659310
+  decide +kernel
+theorem witness32acc_model : exp2 ⟨32, false, -16⟩ 1048150 = .ok 4275659308 := by decide +kernel
+
+/-- the 1-LSB claim fails for 32-bit reps too: `exp2(scaled_integer<uint32_t, power<-16>>)` at rep 1048150 (`x ≈ 15.9935`) returns
+4275659308, the true floor is 4275659310; finding `C20.exp2_error_exceeds_1lsb_unsigned32` (open) -/
+theorem C20_exp2_unsigned32_refuted : ¬ C20_32_full := by
+  intro h
+  obtain ⟨v, hv, hd⟩ := h ⟨32, false, -16⟩ ⟨Or.inr (Or.inr rfl), by decide⟩ rfl 1048150 (by decide) 4275659310 witness32acc_ref (by decide)
+  rw [witness32acc_model] at hv
+  cases hv
+  revert hd; decide
+
+/-! ### repaired defect 2: positive exponent, `x` below the range of `Rep` -/
+
+/-- the demand on negative inputs of positive-exponent formats, about the AS-FOUND definition: a value within one unit of the true result 0 -/
+def C20_below_range_orig : Prop :=
+  ∀ f : Fmt, InScope f → 0 < f.exp → ∀ rep, f.rep.InRange rep → rep < 0 → ∃ v, exp2Orig f rep = .ok v ∧ v.natAbs ≤ 1
+
+theorem witness_wrap8_orig : exp2Orig ⟨8, true, 1⟩ (-123) = .ub .shiftCount := by decide +kernel
+theorem witness_wrap32_orig : exp2Orig ⟨32, true, 3⟩ (-2147483648) = .ub .signedOverflow := by decide +kernel
+
+/-- AS FOUND: `exp2(scaled_integer<int8_t, power<1>>)` at rep −123 (`x = −246`) executed an out-of-range shift -/
+theorem C20_exp2_floor_wraps_orig_refuted : ¬ C20_below_range_orig := by
+  intro h
+  obtain ⟨v, hv, _⟩ := h ⟨8, true, 1⟩ ⟨Or.inl rfl, by decide⟩ (by decide) (-123) (by decide) (by decide)
+  rw [witness_wrap8_orig] at hv
+  cases hv
+
+/-- repaired, for EVERY width, every positive exponent, every negative input and every coefficient table: the result is 0 and 0 is the
+true `⌊2^x · 2^(−E)⌋`; no conversion of `floor(x)` to `Rep` is evaluated -/
+theorem C20_exp2_below_range_exact (f : Fmt) (rep : Int) (he : 0 < f.exp) (hr : rep < 0) :
+    exp2 f rep = .ok 0 ∧ IsRef f.exp rep 0 :=
+  ⟨exp2_neg_posExp f rep he hr, isRef_neg_posExp f.exp rep he hr⟩
+
+example : exp2 ⟨8, true, 1⟩ (-123) = .ok 0 ∧ exp2 ⟨32, true, 3⟩ (-2147483648) = .ok 0 :=
+  ⟨(C20_exp2_below_range_exact _ _ (by decide) (by decide)).1, (C20_exp2_below_range_exact _ _ (by decide) (by decide)).1⟩
 
 /-! ## (b) exact maximum deviation, every input, every 8-bit format -/
 
@@ -109,7 +187,9 @@ def bounds8 : List (Fmt × Nat) :=
    (⟨8, true, -3⟩, 1),
    (⟨8, true, -2⟩, 1),
    (⟨8, true, -1⟩, 1),
-   (⟨8, true, 0⟩, 1)]
+   (⟨8, true, 0⟩, 1),
+   (⟨8, true, 1⟩, 1),
+   (⟨8, true, 2⟩, 1)]
 
 theorem table8 {p : Int → Bool} (f : Fmt) (h8 : f.bits = 8) (h : sweep f p 0 256 = true) :
     ∀ rep, f.rep.InRange rep → p rep = true := by
@@ -133,7 +213,7 @@ theorem C20_exp2_8bit_partial : ∀ fb ∈ bounds8, ∀ rep, fb.1.rep.InRange re
     (r : Int) ≤ fb.1.rep.max → ∃ v, exp2 fb.1 rep = .ok v ∧ (v - r).natAbs ≤ fb.2 := by
   intro fb hfb
   simp only [bounds8, List.mem_cons, List.not_mem_nil, or_false] at hfb
-  rcases hfb with rfl | rfl | rfl | rfl | rfl | rfl | rfl | rfl | rfl | rfl | rfl | rfl | rfl | rfl | rfl | rfl | rfl
+  rcases hfb with rfl | rfl | rfl | rfl | rfl | rfl | rfl | rfl | rfl | rfl | rfl | rfl | rfl | rfl | rfl | rfl | rfl | rfl | rfl
   · exact bound_of_table (table8 _ rfl Exp2Tab8.tab_u8_m7)
   · exact bound_of_table (table8 _ rfl Exp2Tab8.tab_u8_m6)
   · exact bound_of_table (table8 _ rfl Exp2Tab8.tab_u8_m5)
@@ -151,6 +231,8 @@ theorem C20_exp2_8bit_partial : ∀ fb ∈ bounds8, ∀ rep, fb.1.rep.InRange re
   · exact bound_of_table (table8 _ rfl Exp2Tab8.tab_i8_m2)
   · exact bound_of_table (table8 _ rfl Exp2Tab8.tab_i8_m1)
   · exact bound_of_table (table8 _ rfl Exp2Tab8.tab_i8_p0)
+  · exact bound_of_table (table8 _ rfl Exp2Tab8.tab_i8_p1)
+  · exact bound_of_table (table8 _ rfl Exp2Tab8.tab_i8_p2)
 
 /-- the listed bounds are attained (so they are the exact maxima): the flagship cases -/
 theorem C20_exp2_8bit_tight :
@@ -162,27 +244,138 @@ example : IsRef (-4) 63 245 ∧ (245 : Int) ≤ (Fmt.rep ⟨8, false, -4⟩).max
 
 /-! ## (a) integral inputs are exact -/
 
-/-- the sign-compare defect class: unsigned rep at least as wide as `int`, negative exponent -/
+/-- AS FOUND the table below needed the exclusion of this class (unsigned rep at least as wide as `int`, negative exponent): the sign-compare defect -/
 def SignCompareDefect (f : Fmt) : Bool := !f.signed && decide (f.bits ≥ 32) && decide (f.exp < 0)
 
 /-- every integral `x = E + j` (`0 ≤ j < digits`, so that `2^(x−E) = 2^j` fits) that the format can represent gives exactly `2^j` -/
-def integralOK (f : Fmt) : Bool :=
+def integralOKWith (ex : Fmt → Int → Res Int) (f : Fmt) : Bool :=
   (List.range f.rep.digits).all fun j =>
     let x : Int := f.exp + j
     let rep : Int := if f.exp < 0 then x * 2^(-f.exp).toNat else x / 2^f.exp.toNat
     let isRep : Bool := if f.exp < 0 then true else decide (x % 2^f.exp.toNat = 0)
-    if isRep && decide (lowestF f.rep ≤ rep) && decide (rep ≤ maxF f.rep) then exp2 f rep == .ok ((2^j : Nat) : Int) else true
+    if isRep && decide (lowestF f.rep ≤ rep) && decide (rep ≤ maxF f.rep) then ex f rep == .ok ((2^j : Nat) : Int) else true
 
-/-- all exponents with an integer bit, up to +3 -/
+def integralOK (f : Fmt) : Bool := integralOKWith exp2 f
+
+/-- all exponents with an integer bit, up to +5 -/
 def scopeFormats : List Fmt :=
   [8, 16, 32].flatMap fun W => [true, false].flatMap fun s =>
-    (List.range ((if s then W - 1 else W) + 3)).map fun i => ⟨W, s, 3 - (i : Int)⟩
+    (List.range ((if s then W - 1 else W) + 5)).map fun i => ⟨W, s, 5 - (i : Int)⟩
 
 set_option maxRecDepth 100000 in
-theorem C20_integral_exact_partial : ∀ f ∈ scopeFormats, SignCompareDefect f = false → integralOK f = true := by
+/-- the table: every format of `scopeFormats` — unsigned 32-bit reps with negative exponents included since the repair -/
+theorem C20_integral_exact_table : ∀ f ∈ scopeFormats, integralOK f = true := by
   decide +kernel
 
-example : (⟨32, true, -16⟩ : Fmt) ∈ scopeFormats ∧ SignCompareDefect ⟨32, true, -16⟩ = false := by decide
+/-- AS FOUND the table failed on every format of the sign-compare class, e.g. `uint32_t, power<-16>` -/
+theorem C20_integral_exact_orig_refuted : integralOKWith exp2Orig ⟨32, false, -16⟩ = false := by
+  decide +kernel
+
+example : (⟨32, false, -16⟩ : Fmt) ∈ scopeFormats ∧ SignCompareDefect ⟨32, false, -16⟩ = true := by decide
+
+/-- reading one row of the table -/
+theorem integralOK_spec {f : Fmt} (h : integralOK f = true) (j : Nat) (hj : j < f.rep.digits) (rep : Int)
+    (hrep : rep = if f.exp < 0 then (f.exp + j) * 2^(-f.exp).toNat else (f.exp + j) / 2^f.exp.toNat)
+    (hisrep : ¬ f.exp < 0 → (f.exp + j) % 2^f.exp.toNat = 0) (hin : f.rep.InRange rep) :
+    exp2 f rep = .ok ((2^j : Nat) : Int) := by
+  unfold integralOK integralOKWith at h
+  rw [List.all_eq_true] at h
+  have h1 := h j (List.mem_range.2 hj)
+  simp only [← hrep, lowestF_eq, maxF_eq] at h1
+  have hr1 : decide (f.rep.lowest ≤ rep) = true := by simpa using hin.1
+  have hr2 : decide (rep ≤ f.rep.max) = true := by simpa using hin.2
+  by_cases hE : f.exp < 0
+  · simpa [hE, hr1, hr2] using h1
+  · have := hisrep hE
+    simpa [hE, hr1, hr2, this] using h1
+
+/-- `scopeFormats` is every in-scope format with exponent at most +5 -/
+theorem mem_scope (f : Fmt) (hb : f.bits = 8 ∨ f.bits = 16 ∨ f.bits = 32) (h1 : -(f.rep.digits : Int) < f.exp) (h2 : f.exp ≤ 5) :
+    f ∈ scopeFormats := by
+  obtain ⟨b, s, e⟩ := f
+  simp only at hb h2
+  rcases hb with rfl | rfl | rfl <;> cases s <;>
+    simp [scopeFormats, Fmt.rep, IntTy.digits] at h1 ⊢ <;>
+    exact ⟨(5 - e).toNat, by omega, by omega⟩
+
+/-- **integral inputs are exact**, every 8/16/32-bit format with an integer bit (signed and unsigned), every representation: if `x = rep·2^E` is an
+integer, `2^x` is a whole number of units and the true `⌊2^x·2^(−E)⌋ = r` fits the type, then `exp2` returns exactly `r`.
+(For exponents above +5 the hypotheses are unsatisfiable for reps of at most 32 bits: `x ≥ 2^E` then exceeds `E + 32`.) -/
+theorem C20_integral_exact (f : Fmt) (hs : InScope f) (rep : Int) (hin : f.rep.InRange rep) (hI : IntegralExact f rep)
+    (r : Nat) (hr : IsRef f.exp rep r) (hmax : (r : Int) ≤ f.rep.max) : exp2 f rep = .ok (r : Int) := by
+  obtain ⟨hb, hsc⟩ := hs
+  obtain ⟨hdiv, hk⟩ := hI
+  unfold IsRef at hr
+  by_cases hE : f.exp < 0
+  · -- fractional bits: rep = m·2^n
+    have hdiv := hdiv hE
+    simp only [expArg, hE, if_true] at hr hk
+    obtain ⟨n, hn⟩ : ∃ n : Nat, (-f.exp).toNat = n := ⟨_, rfl⟩
+    have hnE : (n : Int) = -f.exp := by omega
+    rw [hn] at hr hk hdiv
+    obtain ⟨m, hm⟩ := Int.dvd_of_emod_eq_zero hdiv
+    have hp : (0 : Int) < 2^n := two_pow_pos n
+    have hkk : rep + -f.exp * 2^n = (m + n) * 2^n := by rw [hm, ← hnE]; ring
+    rw [hkk] at hr hk
+    have hmn : 0 ≤ m + n := by
+      by_contra hc
+      have : (m + n) * 2^n < 0 := Int.mul_neg_of_neg_of_pos (by omega) hp
+      omega
+    obtain ⟨j, hj⟩ : ∃ j : Nat, (j : Int) = m + n := ⟨(m + n).toNat, by omega⟩
+    have hcast : (m + n) * 2^n = ((j * 2^n : Nat) : Int) := by push_cast; rw [hj]
+    rw [hcast] at hr
+    have hrj := isFloor_pow n j r hr
+    subst hrj
+    have hjd := lt_digits_of_le_max f.rep j hmax
+    have hmem := mem_scope f hb hsc (by omega)
+    refine integralOK_spec (C20_integral_exact_table f hmem) j hjd rep ?_ (fun h => absurd hE h) hin
+    simp only [hE, if_true, hn]
+    rw [hm]
+    have : f.exp + j = m := by omega
+    rw [this]; ring
+  · -- no fractional bits
+    simp only [expArg, hE, if_false] at hr hk
+    unfold IsFloorPow2 at hr
+    have hk' : ¬ (rep * 2 ^ f.exp.toNat - f.exp < 0) := by omega
+    simp only [hk', if_false, Nat.pow_zero, Nat.pow_one] at hr
+    obtain ⟨j, hj⟩ : ∃ j : Nat, (rep * 2 ^ f.exp.toNat - f.exp).toNat = j := ⟨_, rfl⟩
+    rw [hj] at hr
+    have hrj : r = 2^j := by omega
+    subst hrj
+    have hjd := lt_digits_of_le_max f.rep j hmax
+    have hjk : (j : Int) = rep * 2 ^ f.exp.toNat - f.exp := by omega
+    have hp : (0 : Int) < 2^f.exp.toNat := two_pow_pos _
+    have hd32 : f.rep.digits ≤ 32 := by
+      clear hr hk hjd hjk hmax hin hdiv hsc hj
+      obtain ⟨b, s, e⟩ := f
+      simp only at hb
+      rcases hb with rfl | rfl | rfl <;> cases s <;> simp [Fmt.rep, IntTy.digits]
+    have hE5 : f.exp ≤ 5 := by
+      by_contra hc
+      obtain ⟨e, he⟩ : ∃ e : Nat, f.exp.toNat = e := ⟨_, rfl⟩
+      have heE : (e : Int) = f.exp := by omega
+      have h6 : 6 ≤ e := by omega
+      have hge := two_pow_ge e h6
+      have hge' : ((e + 32 : Nat) : Int) ≤ ((2^e : Nat) : Int) := by exact_mod_cast hge
+      push_cast at hge'
+      rw [he] at hjk hp
+      have hrep1 : 1 ≤ rep := by
+        by_contra hc2
+        have : rep * 2^e ≤ 0 := Int.mul_nonpos_of_nonpos_of_nonneg (by omega) (by omega)
+        omega
+      have : (2:Int)^e ≤ rep * 2^e := by nlinarith
+      omega
+    have hmem := mem_scope f hb hsc hE5
+    refine integralOK_spec (C20_integral_exact_table f hmem) j hjd rep ?_ (fun _ => ?_) hin
+    · simp only [hE, if_false]
+      have : f.exp + j = rep * 2 ^ f.exp.toNat := by omega
+      rw [this, Int.mul_ediv_cancel _ (by omega)]
+    · have : f.exp + j = rep * 2 ^ f.exp.toNat := by omega
+      rw [this, Int.mul_emod_left]
+
+example : InScope ⟨32, false, -16⟩ ∧ (Fmt.rep ⟨32, false, -16⟩).InRange 196608 ∧ IntegralExact ⟨32, false, -16⟩ 196608 ∧
+    IsRef (-16) 196608 524288 ∧ ((524288 : Nat) : Int) ≤ (Fmt.rep ⟨32, false, -16⟩).max :=
+  ⟨⟨Or.inr (Or.inr rfl), by decide⟩, by decide, by unfold IntegralExact; decide, witness32_ref, by decide⟩
 
 /-! ## (d) constants -/
 
